@@ -245,8 +245,18 @@ impl CommandAnalyzer {
 
     /// Build an index of type definitions from an AST
     fn index_type_definitions(&mut self, ast: &syn::File, file_path: &Path) {
-        for item in &ast.items {
+        self.index_type_definitions_in(&ast.items, file_path);
+    }
+
+    /// Index the types defined among `items`, including those of inline modules (`mod m { .. }`)
+    fn index_type_definitions_in(&mut self, items: &[syn::Item], file_path: &Path) {
+        for item in items {
             match item {
+                syn::Item::Mod(item_mod) => {
+                    if let Some((_, inner_items)) = &item_mod.content {
+                        self.index_type_definitions_in(inner_items, file_path);
+                    }
+                }
                 syn::Item::Struct(item_struct) => {
                     if self.struct_parser.should_include_struct(item_struct) {
                         let struct_name = item_struct.ident.to_string();
@@ -334,8 +344,27 @@ impl CommandAnalyzer {
         type_name: &str,
         file_path: &Path,
     ) -> Option<StructInfo> {
-        for item in &ast.items {
+        self.extract_type_from_items(&ast.items, type_name, file_path)
+    }
+
+    /// Find and parse the type `type_name` among `items`, including those of inline modules
+    fn extract_type_from_items(
+        &mut self,
+        items: &[syn::Item],
+        type_name: &str,
+        file_path: &Path,
+    ) -> Option<StructInfo> {
+        for item in items {
             match item {
+                syn::Item::Mod(item_mod) => {
+                    if let Some((_, inner_items)) = &item_mod.content {
+                        if let Some(found) =
+                            self.extract_type_from_items(inner_items, type_name, file_path)
+                        {
+                            return Some(found);
+                        }
+                    }
+                }
                 syn::Item::Struct(item_struct) => {
                     if item_struct.ident == type_name
                         && self.struct_parser.should_include_struct(item_struct)
